@@ -72,8 +72,8 @@ Qed.
 
 (** for every input: no crash, the events are queue writes only, the fields that decide the
     fate of the transaction are untouched *)
-Lemma chunk_loop_gen cfg : cfg_ok cfg -> forall fuel chunksize s evs, chunksize < fuel ->
-  exists le s' x, chunk_loop fuel cfg chunksize s evs = Ok (le, s', evs ++ x)
+Lemma chunk_loop_gen cfg last : cfg_ok cfg -> forall fuel chunksize s evs, chunksize < fuel ->
+  exists le s' x, chunk_loop fuel cfg last chunksize s evs = Ok (le, s', evs ++ x)
     /\ Forall qish x /\ r_com s' = r_com s /\ r_goodrcpt s' = r_goodrcpt s
     /\ r_qdata s' = r_qdata s /\ r_qhdr s' = r_qhdr s
     /\ (r_bdaterr s <> E0 -> r_bdaterr s' <> E0).
@@ -89,7 +89,8 @@ Proof.
   - destruct (Hd d eq_refl) as (Hdl & _).
     destruct (Nat.eqb_spec (length d) 0) as [E0|_]; [lia|].
     destruct (Nat.ltb_spec chunksize (length d)) as [Hc|_]; [lia|].
-    destruct (piece_ok (r_lastcr (set_net s net')) d ltac:(destruct d; [cbn in Hdl; lia|discriminate]))
+    destruct (piece_ok (r_lastcr (set_net s net')) (negb (c_fix cfg) && last && Nat.eqb (chunksize - length d) 0) d
+                ltac:(destruct d; [cbn in Hdl; lia|discriminate]))
       as (w0 & ws & Ep & _ & _).
     rewrite Ep. cbn [bind].
     match goal with |- context [q_writes cfg ?s2 w0] => pose proof (q_writes_pres cfg w0 s2) as H0;
@@ -114,16 +115,16 @@ Proof.
 Qed.
 
 (** without injected faults and with enough data: everything read is converted and queued *)
-Lemma chunk_loop_clean cfg : cfg_ok cfg -> c_wfail cfg = None ->
+Lemma chunk_loop_clean cfg last : cfg_ok cfg -> c_wfail cfg = None -> c_fix cfg = true ->
   forall fuel chunksize com lc ms qh wc net evs,
   chunksize < fuel -> n_rfail net = None -> chunksize <= length (avail net) ->
   exists wc' net' x,
-    chunk_loop fuel cfg chunksize (mk_rx com lc E0 ms true true qh wc net) evs
+    chunk_loop fuel cfg last chunksize (mk_rx com lc E0 ms true true qh wc net) evs
     = Ok (LoopOk, mk_rx com (endcr lc (firstn chunksize (avail net))) E0 (ms + chunksize) true true qh wc' net', evs ++ x)
     /\ Forall only_q x /\ queued x = conv lc (firstn chunksize (avail net))
     /\ avail net' = skipn chunksize (avail net) /\ n_rfail net' = None.
 Proof.
-  intros Hcfg Hw. induction fuel as [|f IH]; intros chunksize com lc ms qh wc net evs Hf Hrf Hav; [lia|].
+  intros Hcfg Hw Hfix. induction fuel as [|f IH]; intros chunksize com lc ms qh wc net evs Hf Hrf Hav; [lia|].
   cbn [chunk_loop]. destruct (Nat.eqb_spec chunksize 0) as [->|Hn].
   { exists wc, net, []. rewrite app_nil_r, Nat.add_0_r. cbn [firstn skipn endcr conv].
     repeat split; auto. }
@@ -138,7 +139,9 @@ Proof.
   cbn [set_net r_com r_lastcr r_bdaterr r_msgsize r_goodrcpt r_qdata r_qhdr r_wcount r_net].
   destruct (Nat.eqb_spec (length d) 0) as [E0'|_]; [lia|].
   destruct (Nat.ltb_spec chunksize (length d)) as [Hc|_]; [lia|].
-  destruct (piece_ok lc d ltac:(destruct d; [cbn in Hdl; lia|discriminate])) as (w0 & ws & Ep & Hcat & _).
+  rewrite Hfix. cbn [negb andb].
+  destruct (piece_ok lc false d ltac:(destruct d; [cbn in Hdl; lia|discriminate])) as (w0 & ws & Ep & Hcat & _).
+  cbn [andb] in Hcat. rewrite app_nil_r in Hcat.
   rewrite Ep. cbn [bind].
   rewrite (q_writes_clean cfg w0 Hw). cbn [r_com r_lastcr r_bdaterr r_msgsize r_goodrcpt r_qdata r_qhdr r_wcount r_net].
   rewrite (q_writes_clean cfg ws Hw).
@@ -192,14 +195,14 @@ Proof.
   assert (Hinit : Forall plain (snd init)).
   { subst init. destruct (r_com s); [destruct (c_qinit_fail cfg)|constructor|destruct (c_qinit_fail cfg)]; plain_tac. }
   destruct init as [s1 ev1]. cbn [snd] in Hinit.
-  destruct (chunk_loop_gen cfg Hcfg (S size) size s1 ev1 ltac:(lia)) as (le & s2 & x & E & Hq & _).
+  destruct (chunk_loop_gen cfg last Hcfg (S size) size s1 ev1 ltac:(lia)) as (le & s2 & x & E & Hq & _).
   rewrite E. cbn [bind]. apply qish_plain in Hq.
   assert (Hev2 : Forall plain (ev1 ++ x)) by plain_tac.
   destruct le as [|e|].
   - (* the loop ended normally *)
-    set (crw := if last && r_lastcr s2 && err_eqb (r_bdaterr s2) E0 then _ else (None, s2, ev1 ++ x)).
+    set (crw := if c_fix cfg && last && r_lastcr s2 && err_eqb (r_bdaterr s2) E0 then _ else (None, s2, ev1 ++ x)).
     assert (Hcrw : Forall plain (snd crw)).
-    { subst crw. destruct (last && r_lastcr s2 && err_eqb (r_bdaterr s2) E0); [|exact Hev2].
+    { subst crw. destruct (c_fix cfg && last && r_lastcr s2 && err_eqb (r_bdaterr s2) E0); [|exact Hev2].
       pose proof (q_write_pres cfg s2 [CR]) as Hw. destruct (q_write cfg s2 [CR]) as [[wr s'] e'].
       destruct Hw as (_ & Hw). cbn [snd]. apply qish_plain in Hw. plain_tac. }
     destruct crw as [[wr s3] ev3]. cbn [snd] in Hcrw.
@@ -300,7 +303,9 @@ Proof.
 Qed.
 
 (** * a transaction without injected faults *)
-Definition cfg_clean (cfg : rxcfg) : Prop := cfg_ok cfg /\ c_wfail cfg = None /\ c_qinit_fail cfg = false.
+(** no injected fault, and the version of smtp_bdat is the one of this run's C source *)
+Definition cfg_clean (cfg : rxcfg) : Prop :=
+  cfg_ok cfg /\ c_wfail cfg = None /\ c_qinit_fail cfg = false /\ c_fix cfg = RX_CR_AFTER_LOOP.
 
 Definition lc0 (com : comst) (lc : bool) : bool := match com with CsBdat => lc | _ => false end.
 Definition ms0 (com : comst) (ms : nat) : nat := match com with CsBdat => ms | _ => 0 end.
@@ -322,7 +327,8 @@ Lemma smtp_bdat_clean cfg size last com lc ms qd qh wc net :
     /\ queued x = conv (lc0 com lc) D ++ (if last then pend (endcr (lc0 com lc) D) else [])
     /\ avail net' = skipn size (avail net) /\ n_rfail net' = None.
 Proof.
-  intros (Hcfg & Hw & Hqi) Hcom Hq Hrf Hav Hmax D.
+  intros (Hcfg & Hw & Hqi & Hfix) Hcom Hq Hrf Hav Hmax D.
+  change RX_CR_AFTER_LOOP with true in Hfix.   (* the theorem is about the repaired code *)
   unfold smtp_bdat. cbn [r_goodrcpt negb r_com].
   assert (Hinit : (match com with
                    | CsBdat => (mk_rx com lc E0 ms true qd qh wc net, [])
@@ -332,9 +338,9 @@ Proof.
                    end) = (mk_rx CsBdat (lc0 com lc) E0 (ms0 com ms) true true true wc net, init_evs com)).
   { destruct com; [rewrite Hqi; reflexivity| |congruence]. destruct (Hq eq_refl) as [-> ->]. reflexivity. }
   cbn [r_goodrcpt r_qdata r_qhdr r_wcount r_net] in *. rewrite Hinit.
-  destruct (chunk_loop_clean cfg Hcfg Hw (S size) size CsBdat (lc0 com lc) (ms0 com ms) true wc net (init_evs com)
+  destruct (chunk_loop_clean cfg last Hcfg Hw Hfix (S size) size CsBdat (lc0 com lc) (ms0 com ms) true wc net (init_evs com)
               ltac:(lia) Hrf Hav) as (wc1 & net1 & x & E & Hoq & Hqd & Hav1 & Hrf1).
-  rewrite E. cbn [bind]. fold D in E, Hqd |- *.
+  rewrite E. cbn [bind]. fold D in E, Hqd |- *. rewrite Hfix.
   cbn [r_lastcr r_bdaterr err_eqb andb r_msgsize r_com r_goodrcpt r_qdata r_qhdr r_wcount r_net].
   assert (Hplx : Forall plain (init_evs com ++ x)).
   { apply Forall_app; split; [destruct com; cbn; repeat constructor|apply only_q_plain; exact Hoq]. }
@@ -465,4 +471,19 @@ Theorem rx_session_fail_final cfg cmds stream cuts rfail : cfg_ok cfg ->
 Proof.
   intros Hcfg. destruct (run_cmds_gen cfg Hcfg cmds (rx_init stream cuts rfail) []) as (died & s & x & E & Hnaf & _).
   exists died, s, x. split; [exact E|exact Hnaf].
+Qed.
+
+(** what a delivered transaction put into the queue *)
+Lemma rx_delivered_queued data evs : rx_delivered data evs -> queued evs = crlf2lf data.
+Proof. intros (pre & -> & _ & _ & Hq). rewrite queued_app, Hq. cbn. apply app_nil_r. Qed.
+
+(** F-C19-2: the unrepaired smtp_bdat ([c_fix = false]) loses a CR at the very end of the data when
+    the LAST chunk is empty: "BDAT 2" a CR, "BDAT 0 LAST" queues only a *)
+Theorem rx_unrepaired_refuted :
+  let cfg := mk_cfg false None 100 1024 false in
+  exists s evs, rx_session cfg [(2, false, 0); (0, true, 0)] [97; 13]%N [] None = Ok (false, s, evs)
+    /\ ~ rx_delivered [97; 13]%N evs.
+Proof.
+  eexists _, _. split; [vm_compute; reflexivity|].
+  intros H. apply rx_delivered_queued in H. vm_compute in H. discriminate.
 Qed.
